@@ -2,3 +2,12 @@
 _wip = "contracts for this property are not yet discharged on the tree (work in progress in this round); no check is registered until every obligation is accepted"
 for _p in ["C01","C02","C03","C04","C05","C06","C07","C08","C09","C10","C11","C12","C13","C14","C15","C16","C17","C18","C19","C20"]:
     NOT_APPLICABLE[_p] = _wip
+
+def claim(p, text, note, ref="DESIGN.md §4"):
+    CLAIMED[p] = {"text": text, "note": note, "ref": ref}
+    NOT_APPLICABLE.pop(p, None)
+
+claim("C08",
+  "Proof, for all operands: gf2.Poly64.Times/Div/ilog2 and gf2p16.T.Times/Inverse/Div/Pow/Plus/Minus are verified function by function against recursive shift-xor spec functions (specClmul, specDeg, specGfmul = multiplication modulo 0x1100B, specGfpow, specPow3) with loop invariants and decreases clauses; every bounds/div-by-zero/panic obligation is discharged; 30 lemmas about the spec functions (additivity, xtime laws, 3^a*3^b=3^(a+b mod 65535), power law) are proved by SMT with explicit induction schemes. The log/exp and product tables written by init are closed finite facts decided by evaluating the table invariant on the real initialised package for every entry (labelled evaluated, not deduced).",
+  "Trusted: SMT solvers, go/ssa lowering, the gocv VC generator, termination of the spec functions; frozen-global discipline (tables are written only by init). gf2p16.init's table-building loop is not under a deductive contract (its result is evaluated exhaustively instead). The thorough tier adds the 2^32-case reference check specGfmul == reduced carry-less product.",
+  "DESIGN.md §4 C08")
